@@ -15,14 +15,22 @@ CHECKS = {
              "data, timer, middleware/handler completion and disconnect; every transition of the replay instances' state graph "
              "is executed on the real GeminiServerProtocol and compared; random executions outside the model constants are "
              "validated as behaviours of the spec by TLC. A mismatch is judged by the observation spec: only a falsified C01 "
-             "formula is a violation.",
+             "formula is a violation. The real CertificateAuth / AccessControl / RateLimiter refusing hostile request lines "
+             "(percent-encoded CR/LF, NUL, long paths) are run through the real protocol and judged the same way; routing "
+             "configurations ([[locations]] with and without catch-all) are decided by Router.tla replayed through the real "
+             "start_server; the PyOpenSSL layer's close (close_notify then TCP close) by the TlsPump replay.",
         note="Trusted: TLC; the fake transport's fidelity to asyncio's transport contract; scripted handler/middleware "
              "behaviour classes. The stdlib-TLS backend is covered by live-socket checks of C06/C15, not here."),
     "C04": dict(
         engine="ServerConn", design="8 C04, 5.1",
         text="GateC04/NoneBeyondRefusal/FirstRejectionWins model-checked over chains of up to 3 components (allow/deny with "
              "text/deny without text/raise, each completing later) for Gemini and Titan requests, then every transition "
-             "replayed on the real protocol with the real MiddlewareChain around scripted components and spy handlers.",
+             "replayed on the real protocol with the real MiddlewareChain around scripted components and spy handlers, which also "
+             "record the (URL, peer address, certificate fingerprint) they are consulted with (ConsultedWithRealIdentity). "
+             "Chain.tla composes the real components as start_server assembles them (certificate rules -> address policy -> "
+             "rate limiter -> handler): FirstRefusalWins, RefusedDoNotConsume, ServedOnlyIfAllAdmit model-checked and sampled "
+             "behaviours replayed against the protocol factory captured from the real start_server over real TLS sessions in "
+             "memory, with look-alike certificates and changing peer addresses.",
         note="Trusted: as C01. The real RateLimiter/AccessControl/CertificateAuth components are bound by C05/C09/C10."),
     "C07": dict(
         engine="ServerConn", design="8 C07, 5.1",
@@ -78,7 +86,9 @@ CHECKS = {
              "slash x {no cert, c1, c2}, checking AppliedToServed and RefusalIs6x; every case is sent through the real "
              "protocol + MiddlewareChain[CertificateAuth] + StaticFileHandler with the certificate supplied as DER through the "
              "transport (the code's own fingerprint path), rules once as objects and once as a TOML file; the delivered file "
-             "is identified by sentinel and disagreements judged by the observation spec on the delivered file's own location. "
+             "is identified by sentinel and disagreements judged by the observation spec on the delivered file's own location; "
+             "sequences of TLS connections with different / no certificates against the chain assembled by the real "
+             "start_server (Chain.tla) decide that each connection is judged on its own certificate. "
              "Thorough: real TLS on the PyOpenSSL backend in memory with RSA/EC/Ed25519 client certificates.",
         note="Trusted: TLC; sentinel identification; capsule without symlinks (C02 covers links)."),
     "C13": dict(
@@ -109,7 +119,8 @@ CHECKS = {
              "one, TOFU on/off; every transition of the 2-operation graph and hundreds of sampled 12-operation behaviours are "
              "executed on ONE real GeminiClient with a real SQLite pin store against scripted peers; after each step the "
              "known_hosts table, the result / exception (both fingerprints in the message, no content) and the bytes every peer "
-             "received are compared.",
+             "received are compared; 80 (400) random histories of up to 40 operations generated by the driver are recorded and "
+             "validated by TLC against TofuTrace (conformance of every step, every invariant at every step).",
         note="Trusted: TLC; scripted peers supply the DER through ssl_object.getpeercert; a DER blob the X.509 parser rejects "
              "stands for certificates OpenSSL would accept but cryptography cannot read."),
     "C12": dict(
@@ -128,7 +139,8 @@ CHECKS = {
              "gemini target with user-info or fragment) x max_redirects 0..3 x follow on/off x start; every such graph is realised "
              "by scripted peers and the real GeminiClient.get is run against it (result kind, number of connections, request "
              "lines peers received, pin row per contacted host); random graphs over 7 URLs on 3 hosts (URLs differing only in "
-             "query / port / trailing slash) with max_redirects 0..6; the pin check of every hop under rotations and across calls "
+             "query / port / trailing slash) with max_redirects 0..6; pairs of overlapping fetches on one client object, each "
+             "judged by its own reference walk; the pin check of every hop under rotations and across calls "
              "is decided by the Tofu history replay run with C16's formulas.",
         note="Trusted: TLC; scripted peers; URLs are opaque strings in the model."),
     "C06": dict(
@@ -137,7 +149,9 @@ CHECKS = {
              "0, 1, 2^14-1, 2^14, 2^14+1, 40000 and 10^6 bytes under every grouping of the client's ciphertext items into TCP "
              "reads; every transition is executed on the real TLSServerProtocol + OpenSSL engine + GeminiServerProtocol, driven in "
              "memory by a stdlib SSLObject client, and the decrypted stream is compared byte for byte with header + body; random "
-             "byte-level ciphertext cuts with bodies up to 300 kB; thorough tier: live servers on both backends (stdlib ssl and "
+             "byte-level ciphertext cuts with bodies up to 300 kB, a third of them with a peer negotiating 512..4096-byte "
+             "records (max_fragment_length); live: the servers the real start_server builds on both backends serving a 24 MiB "
+             "file to a reader that idles after the header; live servers on both backends (stdlib ssl and "
              "PyOpenSSL) started by the real start_server, bodies sampled densely around 2^14 / 2^16 up to several MB, str and "
              "bytes bodies, static files, slow and bursty readers, byte-identical streams on both backends.",
         note="Trusted: TLC; the stdlib ssl client as TLS peer; byte comparison is the driver's oracle (the model knows lengths and "
@@ -184,7 +198,9 @@ CHECKS = {
              "status, bare LF / CR / over-long meta in ASCII and CJK, reset and stall mid-body, cap exactly / over); each script is "
              "played by a scripted upstream behind the real ProxyHandler behind the real GeminiServerProtocol in virtual time: the "
              "downstream bytes must be the upstream's header and body verbatim or a 43 within the location timeout, with one "
-             "upstream connection; random re-segmentation of the upstream stream must not change the relayed bytes.",
+             "upstream connection; random re-segmentation of the upstream stream must not change the relayed bytes; location "
+             "timeouts below and above the server's own 30 s request timeout, and two locations sharing an upstream with "
+             "different timeouts, must each answer 43 exactly at their own timeout.",
         note="Trusted: TLC; scripted upstream transports. A FIN in the middle of a body is indistinguishable from its end and is "
              "relayed as sent (left undecided, as in DESIGN.md)."),
     "C08": dict(
